@@ -8,6 +8,7 @@
 import Kopf.Extracted.C19
 import Kopf.Model.C19_Orchestrator
 import Kopf.Model.C19_Wiring
+import Kopf.Model.C19_Resources
 namespace Kopf.C19.Tie
 
 theorem pass_under_lock : (Orch.init Extracted.lockedPass).lockedPass = true := by decide
@@ -20,5 +21,13 @@ def extractedWiring : Wiring :=
   ⟨Extracted.ensembleGetsToggles, Extracted.watcherGetsToggles, Extracted.streamGetsToggles⟩
 
 theorem pause_wired : extractedWiring.wired = true := by decide
+
+/-- The split per handler kind read off /repo's AST (observation.revise_resources): `patched_selectors` is the union of
+    the spawning and the changing registries' selectors — on.event and index handlers never make a resource need
+    `patch` — and it is what `_disable_unsuitable_resources` is called with, on `insights.watched_resources`: the
+    model's `servedOf patchKinds` (`readonly_event_only_served`, `unsuitable_not_served`, …) is about that call. -/
+theorem patch_kinds_eq :
+    (⟨Extracted.patchedIndexing, Extracted.patchedWatching, Extracted.patchedSpawning, Extracted.patchedChanging⟩ : Rsc.PatchKinds)
+      = Rsc.patchKinds ∧ Extracted.unsuitableGetsPatched = true := by decide
 
 end Kopf.C19.Tie
